@@ -244,6 +244,25 @@ class Prop(object):
             if not ok:
                 r.viol('decrypt', {'kind': 'addressed-component-not-found', 'component': 'primary' if i == 0 else 'subkey'}, case,
                        '%s: message addressed to component %d is not decrypted by the private key %s' % (label, i, info))
+            # the same with a session-key packet for an unrelated key of the same algorithm in front, and one for another component behind
+            r.states += 1
+            r.transitions += 1
+            stranger = K.raw('rsa3072b', K.T0)
+            others = [c for j, c in enumerate([prim] + list(subs)) if j != i]
+            m2 = wire.packet(1, renc.pkesk_body(stranger, 7, sk)) + wire.packet(1, renc.pkesk_body(comp, 7, sk))
+            if others:
+                m2 += wire.packet(1, renc.pkesk_body(others[-1], 7, sk))
+            m2 += wire.packet(18, renc.seipd_encrypt(7, sk, lit))
+            try:
+                d = key.decrypt(pgpy.PGPMessage.from_blob(m2))
+                ok = bytes(d.message) == b'addressed to component %d' % i
+                info = ''
+            except Exception as e:
+                ok, info = False, repr(e)
+            r.outcomes['decrypt-multi:' + ('ok' if ok else 'failed')] += 1
+            if not ok:
+                r.viol('decrypt', {'kind': 'addressed-component-not-found', 'component': 'primary' if i == 0 else 'subkey', 'multi': True}, case,
+                       '%s: message with several session-key packets (stranger first) is not decrypted through component %d %s' % (label, i, info))
 
     def c_newer(self, case):
         """The most recent self-signature decides: a newer binding / self-certification with other flags."""
